@@ -211,7 +211,7 @@ def key_order(case):
     from superrec2.render import layout as rlayout
 
     base, sol = with_labels(case)
-    out = sr.build_output(base, sol)
+    out = sr.build_output(base, sol, present="auto")
     stubtex.install(lambda i, t: (1.0, 1.0, 0.0))
     lay = rlayout.compute(out, draw_params(case["orient"]))
     return [b["key"] for s in canon_layout(out, lay) for b in s["branches"]]
@@ -267,7 +267,7 @@ def run_real(case, swap=False, params=None, extra=None, render=True):
     from superrec2.render import tikz as rtikz
 
     base, sol = with_labels(case)
-    out = sr.build_output(base, sol)
+    out = sr.build_output(base, sol, present="auto")  # names of ancestors / family objects vary (sr.presentation)
     texts = []
     stubtex.install(measurer(case, swap=swap, record=texts))
     dp = draw_params(case["orient"], params, extra)
